@@ -73,6 +73,25 @@ struct DumpVisitor {
             // m_use_count a statistic: neither is observable state.  The conversion tables follow from name and type.
             out << "<UnitSystem " << x.getName() << " " << static_cast<long>(x.getType()) << ">";
         }
+        else if constexpr (std::is_same_v<U, DeckItem>) {
+            // DeckItem keeps its doubles either in deck units or in SI and converts lazily *in place* (mutable): reading a
+            // keyword stored in an ACTIONX changes the representation, not the meaning.  Canonical form: SI values, 12 digits.
+            out << "<DeckItem " << x.name() << " " << static_cast<int>(x.getType()) << " [";
+            for (size_t i = 0; i < x.data_size(); ++i) {
+                out << (x.defaultApplied(i) ? "D" : "V");
+                if (!x.hasValue(i)) { out << "!,"; continue; }
+                switch (x.getType()) {
+                case type_tag::integer: out << x.template get<int>(i); break;
+                case type_tag::string: out << '"' << x.template get<std::string>(i) << '"'; break;
+                case type_tag::raw_string: out << '"' << x.template get<RawString>(i) << '"'; break;
+                case type_tag::fdouble: { char b[40]; double v; try { v = x.getSIDouble(i); } catch (const std::exception&) { v = x.template get<double>(i); } snprintf(b, sizeof b, "%.12g", v); out << b; break; }
+                case type_tag::uda: { const auto u = x.template get<UDAValue>(i); if (u.template is<double>()) { char b[40]; snprintf(b, sizeof b, "%.12g", u.template get<double>()); out << b; } else if (u.template is<std::string>()) out << '"' << u.template get<std::string>() << '"'; else out << "uda-none"; break; }
+                default: out << "?";
+                }
+                out << ",";
+            }
+            out << "]>";
+        }
         else if constexpr (std::is_same_v<U, UDQDefine>) { (void)x.input_string(); out << "<"; const_cast<U&>(x).serializeOp(*this); out << ">"; }
         else if constexpr (has_sop<U>::value) { out << "<"; const_cast<U&>(x).serializeOp(*this); out << ">"; }
         else if constexpr (std::is_same_v<U, std::string>) { out << '"' << x << '"'; }
